@@ -326,6 +326,114 @@ plain_coll!(Funcs, "functions", FunctionId, funcs, has_len = false, iter_mut = t
     add = |m, v| { let b = FunctionBuilder::new(&mut m.types, &[], &[]); let id = b.finish(vec![], &mut m.funcs); m.funcs.get_mut(id).name = Some(v.to_string()); id },
     payload = |x| x.name.as_ref().and_then(|n| n.parse::<u64>().ok()).unwrap_or(u64::MAX));
 
+/// imports deleted through `ModuleImports::remove(module, name)`: every item has its own import-module
+/// name, field names repeat across modules
+struct ImportsByName {
+    m: Module,
+    ids: Vec<Option<ImportId>>,
+    keys: Vec<(String, String)>,
+}
+impl Coll for ImportsByName {
+    const NAME: &'static str = "imports-by-name";
+    const KIND: &'static str = "plain";
+    fn new() -> Self {
+        ImportsByName { m: Module::default(), ids: vec![], keys: vec![] }
+    }
+    fn add(&mut self, v: u64) -> usize {
+        let key = (format!("mod{}", self.keys.len()), format!("n{}", v % 2));
+        let id = self.m.add_import_global(&key.0, &key.1, ValType::I32, false, false).1;
+        let ix = id.index();
+        while self.ids.len() <= ix {
+            self.ids.push(None);
+            self.keys.push((String::new(), String::new()));
+        }
+        self.ids[ix] = Some(id);
+        self.keys[ix] = key;
+        // the payload the model knows is v: kept in a global name
+        let gid = match self.m.imports.get(id).kind { ImportKind::Global(g) => g, _ => unreachable!() };
+        self.m.globals.get_mut(gid).name = Some(v.to_string());
+        ix
+    }
+    fn known(&self) -> usize {
+        self.ids.len()
+    }
+    fn del(&mut self, i: usize) {
+        let (md, nm) = self.keys[i].clone();
+        // an import that is gone: `remove` reports an error, `delete` of a dead id panics; both are "absent"
+        if self.m.imports.remove(&md, &nm).is_err() {
+            panic!("absent");
+        }
+    }
+    fn idx(&self, i: usize) -> u64 {
+        let imp = self.m.imports.get(self.ids[i].unwrap());
+        match imp.kind {
+            ImportKind::Global(g) => self.m.globals.get(g).name.as_ref().and_then(|n| n.parse().ok()).unwrap_or(u64::MAX),
+            _ => u64::MAX,
+        }
+    }
+    fn iter(&mut self) -> Vec<(usize, u64)> {
+        let v: Vec<(usize, ImportKind)> = self.m.imports.iter().map(|x| (x.id().index(), x.kind.clone())).collect();
+        v.into_iter()
+            .map(|(i, k)| {
+                (i, match k {
+                    ImportKind::Global(g) => self.m.globals.get(g).name.as_ref().and_then(|n| n.parse().ok()).unwrap_or(u64::MAX),
+                    _ => u64::MAX,
+                })
+            })
+            .collect()
+    }
+}
+
+/// exports deleted through `ModuleExports::remove(name)` (unique names)
+struct ExportsByName {
+    m: Module,
+    ids: Vec<Option<ExportId>>,
+    names: Vec<String>,
+    payload: Vec<u64>,
+}
+impl Coll for ExportsByName {
+    const NAME: &'static str = "exports-by-name";
+    const KIND: &'static str = "plain";
+    fn new() -> Self {
+        ExportsByName { m: Module::default(), ids: vec![], names: vec![], payload: vec![] }
+    }
+    fn add(&mut self, v: u64) -> usize {
+        let first = self.m.memories.iter().next().map(|x| x.id());
+        let mem = match first {
+            Some(x) => x,
+            None => self.m.memories.add_local(false, false, 1, None, None),
+        };
+        let name = format!("e{}_{}", self.names.len(), v);
+        let id = self.m.exports.add(&name, mem);
+        let ix = id.index();
+        while self.ids.len() <= ix {
+            self.ids.push(None);
+            self.names.push(String::new());
+            self.payload.push(0);
+        }
+        self.ids[ix] = Some(id);
+        self.names[ix] = name;
+        self.payload[ix] = v;
+        ix
+    }
+    fn known(&self) -> usize {
+        self.ids.len()
+    }
+    fn del(&mut self, i: usize) {
+        let n = self.names[i].clone();
+        if self.m.exports.remove(&n).is_err() {
+            panic!("absent");
+        }
+    }
+    fn idx(&self, i: usize) -> u64 {
+        let e = self.m.exports.get(self.ids[i].unwrap());
+        e.name.rsplit('_').next().and_then(|x| x.parse().ok()).unwrap_or(u64::MAX)
+    }
+    fn iter(&mut self) -> Vec<(usize, u64)> {
+        self.m.exports.iter().map(|e| (e.id().index(), e.name.rsplit('_').next().and_then(|x| x.parse().ok()).unwrap_or(u64::MAX))).collect()
+    }
+}
+
 /// custom sections: deletion and lookup report absence with `None` instead of panicking
 struct Customs {
     m: Module,
@@ -664,6 +772,8 @@ pub fn main(seed: u64, tier: &str, only: Option<&str>) {
             "types" => go!(Types),
             "types-named" => go!(TypesNamed),
             "types-entry" => go!(TypesEntry),
+            "imports-by-name" => go!(ImportsByName),
+            "exports-by-name" => go!(ExportsByName),
             "memories" => go!(Memories),
             "tables" => go!(Tables),
             "globals" => go!(Globals),
@@ -681,6 +791,8 @@ pub fn main(seed: u64, tier: &str, only: Option<&str>) {
     suite::<Types>(seed, n * 2, maxlen, enum_len, &mut seen);
     suite::<TypesNamed>(seed ^ 0x7a, n, maxlen, enum_len, &mut seen);
     suite::<TypesEntry>(seed ^ 0x7b, n, maxlen, enum_len, &mut seen);
+    suite::<ImportsByName>(seed ^ 0x7c, n, maxlen, enum_len, &mut seen);
+    suite::<ExportsByName>(seed ^ 0x7d, n, maxlen, enum_len, &mut seen);
     suite::<Memories>(seed, n, maxlen, enum_len, &mut seen);
     suite::<Tables>(seed, n, maxlen, enum_len.min(3), &mut seen);
     suite::<Globals>(seed, n, maxlen, enum_len.min(3), &mut seen);
